@@ -114,7 +114,7 @@ PROPS["C04"] = dict(
          "every reply RESP, blocking pops answer by their timeout; distinct = distinct trace hash.  Second phase (race sweep, "
          "-race build, real threads): 2-4 attacker connections fire adversarial commands at the same typed key at once; "
          "oracle = no runtime abort, and no race-detector report on a Go map (the race behind 'fatal error: concurrent map "
-         "writes'); a single step that never completes within 90 s of real time is reported as a hang",
+         "writes'); a single step that never completes within 45 s of real time is reported as a hang",
     state_measure="hash of the canonical final keyspace dump",
     components=REAL_E1,
     assumptions=["an executor panic counts as a process death (no recover exists on any server path)",
